@@ -180,6 +180,14 @@ Theorem C08_copy_same_future : forall C I (nb bb : C -> step I C) h it,
   run_m nb bb h (it_copy it) = run_m nb bb h it /\ final_m nb bb h (it_copy it) = final_m nb bb h it.
 Proof. exact @copy_same_future. Qed.
 
+(** ** every view the spec lists (hence every view the model yields) lies inside the slice *)
+Theorem C08_views_inside : forall n len, 1 <= n -> 0 <= len ->
+  Forall (inside len) (windows_spec n len) /\ Forall (inside len) (chunks_spec n len) /\
+  Forall (inside len) (rchunks_spec n len) /\ Forall (inside len) (chunks_exact_spec n len) /\
+  Forall (inside len) (rchunks_exact_spec n len) /\
+  inside len (chunks_exact_rem n len) /\ inside len (rchunks_exact_rem n len).
+Proof. exact specs_inside. Qed.
+
 Print Assumptions C08_iter_refines.
 Print Assumptions C08_iter_rev_refines.
 Print Assumptions C08_iter_copied_refines.
@@ -212,3 +220,4 @@ Print Assumptions C08_deque_rev.
 Print Assumptions C08_rev_rev_id.
 Print Assumptions C08_copy_is_value.
 Print Assumptions C08_copy_same_future.
+Print Assumptions C08_views_inside.
